@@ -3,11 +3,12 @@
    run by plugins_process_msgs over real channels) against the contract of Plugins.tla.
 
    trace lines (ndjson):
-     {"ev":"reset","case":n,"hdr":{"chain":[kinds],"stream":name,"n":count}}
-     {"ev":"in","pos":p,"vec":{idx,rx,ts,ecu,std,ext,vmm,noar,apid,ctid,pay,text,lc},"flda":b,"cr":b,"a0":k}
+     {"ev":"reset","case":n,"hdr":{"chain":[kinds],"ft":{"apid":id|"","ctid":id|""},"stream":name,"n":count}}
+     {"ev":"in","pos":p,"vec":{idx,rx,ts,ecu,std,ext,vmm,noar,apid,ctid,pay,text,lc},"fshape":b,"cr":b,"a0":k}
                                   one per message sent into the chain, p = 1..n; vec = the observable fields (numbers are
-                                  values or 31-bit hashes, ids are strings); flda = FLDA data package of the configured
-                                  file transfer; cr = control response; a0 = byte length of its first argument (-1: none)
+                                  values or 31-bit hashes, ids are strings); fshape = FLDA-shaped (verbose log info, 5 arguments,
+                                  framed by "FLDA"; whether it comes from the configured source is decided here from hdr.ft);
+                                  cr = control response; a0 = byte length of its first argument (-1: none)
      {"ev":"out","vec":{...}}     one per message received from the chain, in order of arrival
      {"ev":"panic","msg":...}     the thread running the chain panicked (no message after it is forwarded)
      {"ev":"lcs","orig":[{ecu,s,e,n}],"anon":[{ecu,s,e,n}]}   lifecycle tables detected on the input and on the output stream
@@ -29,10 +30,10 @@ P == INSTANCE Plugins WITH MaxChain <- 0, MaxIn <- 0, chain <- <<>>, ins <- <<>>
 
 Rec == ndJsonDeserialize(IOEnv.TRACE)
 
-VARIABLES l, case, phase, chain, base, nin, p, emap, amap, cmap, viol, kfUsed
-vars == <<l, case, phase, chain, base, nin, p, emap, amap, cmap, viol, kfUsed>>
+VARIABLES l, case, phase, chain, ft, base, nin, p, emap, amap, cmap, viol, kfUsed
+vars == <<l, case, phase, chain, ft, base, nin, p, emap, amap, cmap, viol, kfUsed>>
 
-Init == /\ l = 1 /\ case = -1 /\ phase = "idle" /\ chain = <<>> /\ base = 0 /\ nin = 0 /\ p = 0
+Init == /\ l = 1 /\ case = -1 /\ phase = "idle" /\ chain = <<>> /\ ft = [apid |-> "", ctid |-> ""] /\ base = 0 /\ nin = 0 /\ p = 0
         /\ emap = {} /\ amap = {} /\ cmap = {} /\ viol = {} /\ kfUsed = {}
 
 Ev(e) == l <= Len(Rec) /\ Rec[l].ev = e /\ l' = l + 1
@@ -40,19 +41,21 @@ Cur == Rec[l]
 InAt(q) == Rec[base + q]                       \* the q-th `in` event of the current case
 
 Reset == /\ Ev("reset")
-         /\ case' = Cur.case /\ chain' = Cur.hdr.chain /\ base' = l /\ nin' = 0 /\ p' = 0
+         /\ case' = Cur.case /\ chain' = Cur.hdr.chain /\ ft' = Cur.hdr.ft /\ base' = l /\ nin' = 0 /\ p' = 0
          /\ emap' = {} /\ amap' = {} /\ cmap' = {} /\ phase' = "feeding"
          /\ viol' = IF phase \in {"feeding", "running"} THEN viol \cup {case} ELSE viol
          /\ UNCHANGED kfUsed
 
 In == /\ Ev("in") /\ phase = "feeding" /\ Cur.pos = nin + 1
       /\ nin' = nin + 1
-      /\ UNCHANGED <<case, phase, chain, base, p, emap, amap, cmap, viol, kfUsed>>
+      /\ UNCHANGED <<case, phase, chain, ft, base, p, emap, amap, cmap, viol, kfUsed>>
 
 HasAnon == "anon" \in P!Range(chain)
 Changed(m, m2) == {f \in P!Fields : m[f] # m2[f]}
 FieldsOK(m, m2) == Changed(m, m2) \subseteq P!Allowed(chain, m.ext = 1, m2.ext = 1)
-Droppable(q) == P!MayDrop(chain, InAt(q).flda)
+\* FLDA package of the configured source? (ft = the file transfer plugin's apid/ctid configuration from the case header)
+IsFlda(q) == InAt(q).fshape /\ P!SourceMatch(ft, InAt(q).vec.ext = 1, InAt(q).vec.apid, InAt(q).vec.ctid)
+Droppable(q) == P!MayDrop(chain, IsFlda(q))
 \* the input an output stems from: the first input after the last forwarded one whose unchangeable fields agree, skipping
 \* only inputs that may be dropped (0 = none).  Greedy choice of the first such input loses nothing: inputs that may be
 \* skipped are exactly the droppable ones.
@@ -83,7 +86,7 @@ Out == /\ Ev("out") /\ phase \in {"feeding", "running"}
                      /\ cmap' = IF m.ext = 1 THEN P!MapAdd(cmap, <<Cur.vec.ecu, m.apid>>, m.ctid, Cur.vec.ctid) ELSE cmap
                 ELSE UNCHANGED <<emap, amap, cmap>>
        /\ phase' = "running"
-       /\ UNCHANGED <<case, chain, base, nin, viol, kfUsed>>
+       /\ UNCHANGED <<case, chain, ft, base, nin, viol, kfUsed>>
 
 \* lifecycle tables of the original and of the anonymised stream
 Renamed(row) == IF \E pr \in emap : pr[2] = row.ecu
@@ -96,13 +99,13 @@ Lcs == /\ Ev("lcs") /\ phase \in {"feeding", "running"} /\ HasAnon
        /\ LET ren == [k \in DOMAIN Cur.orig |-> Renamed(Cur.orig[k])] IN
              \A k \in DOMAIN ren : Count(ren, ren[k]) = Count(Cur.anon, ren[k])
        /\ phase' = "running"
-       /\ UNCHANGED <<case, chain, base, nin, p, emap, amap, cmap, viol, kfUsed>>
+       /\ UNCHANGED <<case, chain, ft, base, nin, p, emap, amap, cmap, viol, kfUsed>>
 
 End == /\ Ev("end")
        /\ \/ phase \in {"feeding", "running"} /\ \A q \in (p + 1)..nin : Droppable(q)
           \/ phase = "panicked"
        /\ phase' = "ended"
-       /\ UNCHANGED <<case, chain, base, nin, p, emap, amap, cmap, viol, kfUsed>>
+       /\ UNCHANGED <<case, chain, ft, base, nin, p, emap, amap, cmap, viol, kfUsed>>
 
 \* known finding #18: anonymize.rs:109 get(0..4).unwrap() on a control response with a first argument of < 4 bytes
 KF_Panic == /\ KF_C19_AnonShortCtrlResponse
@@ -110,18 +113,18 @@ KF_Panic == /\ KF_C19_AnonShortCtrlResponse
             /\ ShortCtrlRespNext(p + 1)
             /\ phase' = "panicked"
             /\ kfUsed' = kfUsed \cup {[case |-> case, kf |-> "KF_C19_AnonShortCtrlResponse"]}
-            /\ UNCHANGED <<case, chain, base, nin, p, emap, amap, cmap, viol>>
+            /\ UNCHANGED <<case, chain, ft, base, nin, p, emap, amap, cmap, viol>>
 
 Matches == ENABLED In \/ ENABLED Out \/ ENABLED Lcs \/ ENABLED End \/ ENABLED KF_Panic
 Reject == /\ l <= Len(Rec) /\ Cur.ev # "reset" /\ phase \in {"feeding", "running", "panicked"} /\ ~Matches
           /\ PrintT(<<"CASE_REJECTED", case, l, ToJson(Cur)>>)
           /\ l' = l + 1 /\ phase' = "rejected" /\ viol' = viol \cup {case}
-          /\ UNCHANGED <<case, chain, base, nin, p, emap, amap, cmap, kfUsed>>
+          /\ UNCHANGED <<case, chain, ft, base, nin, p, emap, amap, cmap, kfUsed>>
 SkipRest == /\ l <= Len(Rec) /\ Cur.ev # "reset" /\ phase \in {"rejected", "ended", "idle"}
             /\ l' = l + 1
             /\ IF phase = "ended" THEN viol' = viol \cup {case} /\ phase' = "rejected"       \* events after `end`
                                   ELSE UNCHANGED <<viol, phase>>
-            /\ UNCHANGED <<case, chain, base, nin, p, emap, amap, cmap, kfUsed>>
+            /\ UNCHANGED <<case, chain, ft, base, nin, p, emap, amap, cmap, kfUsed>>
 
 Next == Reset \/ In \/ Out \/ Lcs \/ End \/ KF_Panic \/ Reject \/ SkipRest
 Spec == Init /\ [][Next]_vars
